@@ -5,6 +5,7 @@ import Cctp.Props.C11
 import Cctp.Model.Queries
 import Cctp.Model.Cli
 import Cctp.Model.Genesis
+import Cctp.Props.C17
 /-
   C20 — no input crashes a handler, query, decoder or CLI address parser.
   PARTIAL: this is about the model, i.e. about the panics of the module's OWN code (nil dereferences,
@@ -287,5 +288,46 @@ theorem roles_txs (ext : Ext) (cfg : Cfg) (txs : List Txn) (w : World) (hs : w.s
     (hr : RolesSet w.store) : RolesSet (runTxs ext cfg w txs).1.store := by
   rw [runTxs_flatten ext cfg txs w hs]
   exact roles_run ext cfg _ w hg hr
+
+/-! ### the property's own quantifier: every state reachable from an initialised genesis -/
+
+/-- a state the chain can be in: some genesis that initialises, then any chain of (multi-message) transactions with any
+    fault plans of the dependencies. -/
+def reached (ext : Ext) (cfg : Cfg) (g : Genesis) (st0 : Store) (led : Ledger) (txs : List Txn) : World :=
+  (runTxs ext cfg ⟨st0, led⟩ txs).1
+
+theorem reached_roles (ext : Ext) (cfg : Cfg) (g : Genesis) (st0 : Store) (led : Ledger) (txs : List Txn)
+    (hl : led.faults = []) (hi : Genesis.init ext [] g = .ok st0) : RolesSet (reached ext cfg g st0 led txs).store := by
+  have hs : (⟨st0, led⟩ : World).settle = ⟨st0, led⟩ := by
+    cases led; simp only [World.settle] at *; simp_all
+  exact roles_txs ext cfg txs _ hs (C17.good_init ext g st0 hi) (C17.init_roles_set ext g st0 hi).1
+
+/-- **No transaction panics in any state reachable from an initialised genesis**, with no invariant left as a
+    hypothesis: whatever the genesis (as long as InitGenesis itself accepts it), whatever chain of transactions and
+    dependency failures led here, whatever message comes next and whatever its own fault plan — under the two bounds the
+    wire imposes (an attestation shorter than 4 GiB, amounts of at most 256 bits). -/
+theorem no_panic_reachable (ext : Ext) (cfg : Cfg) (g : Genesis) (st0 : Store) (led : Ledger) (txs : List Txn)
+    (hl : led.faults = []) (hi : Genesis.init ext [] g = .ok st0) (f : List Bool) (m : Msg) (ha : AttOK m)
+    (hw : ∀ fr a d r t, (m = .depositForBurn fr a d r t ∨ ∃ c, m = .depositForBurnWithCaller fr a d r t c) →
+          ∀ x, a = some x → x.natAbs < 2 ^ 256) :
+    (deliver ext cfg (reached ext cfg g st0 led txs) f m).2.fail ≠ some .panic := by
+  have hr := reached_roles ext cfg g st0 led txs hl hi
+  have hnp := no_panic_tx ext cfg (reached ext cfg g st0 led txs).store
+    { (reached ext cfg g st0 led txs).ledger with faults := f } m hr ha hw
+  unfold deliver
+  split
+  · simp
+  · rename_i e he
+    intro h
+    simp only [Option.some.injEq] at h
+    exact hnp (h ▸ he)
+
+/-- … and no query does, except the one request shape of the known finding (reverse pagination from a key, SDK code). -/
+theorem no_panic_query_reachable (ext : Ext) (cfg : Cfg) (g : Genesis) (st0 : Store) (led : Ledger) (txs : List Txn)
+    (hl : led.faults = []) (hi : Genesis.init ext [] g = .ok st0) (nilReq : Bool) (q : Query)
+    (hp : ∀ p rq, (q = .attesters p ∨ q = .burnLimits p ∨ q = .tokenPairs p ∨ q = .usedNonces p ∨ q = .remoteTokenMessengers p) →
+        p = some rq → ¬ (rq.reverse = true ∧ rq.key.length ≠ 0)) :
+    query ext (reached ext cfg g st0 led txs).store nilReq q ≠ .error .panic :=
+  no_panic_query ext _ nilReq q (reached_roles ext cfg g st0 led txs hl hi) hp
 
 end Cctp.C20
